@@ -104,6 +104,59 @@ Theorem C04_code_wf : forall f x y s s' tx ty ts,
 Proof. exact GCoreSpec.gunify_wf. Qed.
 Print Assumptions C04_code_wf.
 
+(* ---- the text of gomini/unify.go.  gen/GominiGen.v is translated from it on every run (harness/cmd/genmicro -gomini:
+   statement by statement into a result monad with out-of-fuel and panic outcomes, the reflecttools calls as the model of
+   C18); the generated functions ARE the transcription above, for every input and every recursion budget *)
+Require GMK.GoLite GMK.GoLiteG GMK.gen.GominiGen GMK.GominiGenSpec.
+
+Theorem C04_gen_is_transcription : forall f x y s i,
+  GominiGen.gm_unify f x y s = GominiGenSpec.of_gres (GCore.gunify f x y s) /\
+  GominiGen.gm_walk f x s = GominiGenSpec.of_optg (GCore.gwalk f x s) /\
+  GominiGen.gm_hasCycle f i y s = GominiGenSpec.of_optg (GCore.ghascycle f i y s) /\
+  GominiGen.gm_isLeaf x = GoLite.Ret (GCore.is_leaf x) /\
+  GominiGen.gm_rewrite f x s = GominiGenSpec.of_optg (GCore.grewrite f x s).
+Proof. exact (fun f x y s i => conj (GominiGenSpec.gm_unify_spec f x y s) (conj (GominiGenSpec.gm_walk_spec f x s)
+               (conj (GominiGenSpec.gm_hasCycle_spec f i y s) (conj (GominiGenSpec.gm_isLeaf_spec x) (GominiGenSpec.gm_rewrite_spec f x s))))). Qed.
+Print Assumptions C04_gen_is_transcription.
+
+Theorem C04_gen_never_panics : forall f x y s i,
+  GominiGen.gm_unify f x y s <> GoLite.Panic /\ GominiGen.gm_walk f x s <> GoLite.Panic /\
+  GominiGen.gm_hasCycle f i y s <> GoLite.Panic /\ GominiGen.gm_rewrite f x s <> GoLite.Panic /\ GominiGen.gm_isLeaf x <> GoLite.Panic.
+Proof. exact GominiGenSpec.gomini_code_never_panics. Qed.
+Print Assumptions C04_gen_never_panics.
+
+Theorem C04_gen_is_unify : forall f x y s tx ty ts,
+  GCore.tenc x = Some tx -> GCore.tenc y = Some ty -> GCore.senc s = Some ts ->
+  match GominiGen.gm_unify f x y s with
+  | GoLite.Ret None => exists f2, unify f2 tx ty ts = Fail
+  | GoLite.Ret (Some s') => exists ts' f2, GCore.senc s' = Some ts' /\ unify f2 tx ty ts = Ok ts'
+  | GoLite.OOF_ => True
+  | GoLite.Panic => False
+  end.
+Proof. exact GominiGenSpec.gm_unify_is_unify. Qed.
+Print Assumptions C04_gen_is_unify.
+
+Theorem C04_gen_mgu : forall f x y s s' tx ty ts,
+  GCore.tenc x = Some tx -> GCore.tenc y = Some ty -> GCore.senc s = Some ts ->
+  GominiGen.gm_unify f x y s = GoLite.Ret (Some s') ->
+  exists ts', GCore.senc s' = Some ts' /\ (exists ext, ts' = ts ++ ext) /\
+              (forall r, sat r ts' <-> sat r ts /\ inst r tx = inst r ty).
+Proof. exact GominiGenSpec.gm_unify_mgu. Qed.
+Print Assumptions C04_gen_mgu.
+
+Theorem C04_gen_fail : forall f x y s tx ty ts,
+  GCore.tenc x = Some tx -> GCore.tenc y = Some ty -> GCore.senc s = Some ts ->
+  GominiGen.gm_unify f x y s = GoLite.Ret None -> ~ exists r, sat r ts /\ inst r tx = inst r ty.
+Proof. exact GominiGenSpec.gm_unify_fail. Qed.
+Print Assumptions C04_gen_fail.
+
+Example C04_gen_nonvacuous :
+  let str := fun z => Reflect.GPtr (Reflect.GScalar 1 z) in
+  GominiGen.gm_unify 20 (Reflect.GStructPtr [GCore.gvar 0; str 5%Z]) (Reflect.GStructPtr [Reflect.GNilPtr; GCore.gvar 1]) []
+    = GoLite.Ret (Some [(0%N, Reflect.GNilPtr); (1%N, str 5%Z)]) /\
+  GominiGen.gm_unify 20 (GCore.gvar 0) (Reflect.GStructPtr [GCore.gvar 0; Reflect.GNilPtr]) [] = GoLite.Ret None.
+Proof. vm_compute. split; reflexivity. Qed.
+
 (* non-vacuity, on the transcription: two fresh variables unify by binding one to the other; a variable does not unify with
    a struct that contains it; a struct pattern against data binds field by field; slices of different length do not unify *)
 Example C04_code_nonvacuous :
